@@ -47,9 +47,16 @@ func mk(typ byte, ev uint32, pts uint64, hasPTS bool, num, exp byte) D {
 	if hasPTS {
 		ts := scte35.CreateTimeSignalCommand()
 		ts.SetHasPTS(true)
-		ts.SetPTS(gots.PTS(pts))
 		s.SetCommandInfo(ts)
-		s.SetPTS(gots.PTS(pts))
+		if adj := (pts/100 + uint64(ev) + uint64(typ)) % 4; adj == 0 {
+			// the signal time is the command's pts_time plus a pts_adjustment that is not 0
+			ts.SetPTS(gots.PTS((pts - 4321) & (1<<33 - 1)))
+			s.SetPTS(gots.PTS((pts - 4321) & (1<<33 - 1)))
+			s.SetAdjustPTS(gots.PTS(pts))
+		} else {
+			ts.SetPTS(gots.PTS(pts))
+			s.SetPTS(gots.PTS(pts))
+		}
 	}
 	s.SetDescriptors([]D{d})
 	return d
@@ -194,6 +201,9 @@ func (t *tracker) process(d D) {
 	i.hasPTS = d.SCTE35().HasPTS()
 	if i.hasPTS {
 		i.pts = uint64(d.SCTE35().PTS())
+		if ci := d.SCTE35().CommandInfo(); ci != nil && ci.HasPTS() && uint64(ci.PTS()) != i.pts {
+			t.c.Count("event.signal_with_pts_adjustment")
+		}
 	}
 	t.inf[d] = i
 	if i.hasPTS {
@@ -799,8 +809,8 @@ func run(c *mon.Ctx) {
 	}
 	// trackers of their own in several goroutines: a tracker's bookkeeping is its own
 	c.Floor("concurrent.calls", 5000)
-	c.Stream("concurrent-trackers", c.N(3, 150), func(i int, r *gen.Rand) {
-		c.Concurrent("scte35.State objects of their own", 8, 300, r, func(q *gen.Rand) string {
+	c.Stream("concurrent-trackers", c.N(8, 200), func(i int, r *gen.Rand) {
+		c.Concurrent("scte35.State objects of their own", 8, 2400, r, func(q *gen.Rand) string {
 			st := scte35.NewState()
 			var open []D
 			pts := q.Uint64() & (1<<33 - 1)
@@ -838,6 +848,7 @@ func run(c *mon.Ctx) {
 	c.Stream("random", c.N(40000, 30000000), func(i int, r *gen.Rand) { random(c, r) })
 	c.Floor("pattern.signal-times-out-of-order", 1000)
 	c.Floor("pattern.cancelled-event", 1000)
+	c.Floor("event.signal_with_pts_adjustment", 10000)
 	c.Floor("pattern.type-from-the-whole-code-space", 1000)
 	c.Floor("pooled.histories", 10000)
 	c.Stream("pooled", c.N(40000, 20000000), func(i int, r *gen.Rand) { pooled(c, r) })
